@@ -322,7 +322,7 @@ def judgeRun (fuel : Nat) (env : Env) (ctx0 : Ctx) (root : NodeId) (vis : NodeId
   -- any other visit (of any node) follows; a batch node run directly is judged by `judgeBatchRoot`
   let c11f := (match env.arena root with | .batch _ => true | _ => false) || Spec.c11Flow env ctx0 o
   -- C17 speaks of payloads that are not themselves `flyt.Result`s (`Proofs.Payload.PlainPayloads`, boundary B2)
-  let c17 := leafSegs.all (fun (cfg, scr, _, seg) => (!plainPayloadsB cfg scr || c17Visit cfg scr seg) && c17Fallback cfg scr seg)
+  let c17 := leafSegs.all (fun (cfg, scr, _, seg) => (!plainPayloadsB cfg scr || (c17Visit cfg scr seg && c17ExecKept cfg scr seg)) && c17Fallback cfg scr seg)
   let c18 := Spec.c18 o && (!cancelFree || !allPrep || Spec.c18Followed env root o)
   let bj := judgeBatchRoot env root vis cancelFree o
   let c02 := c02 && (bj.all fun (k, b) => k != "C02b" || b)
